@@ -147,12 +147,13 @@ class GNode:
 
 
 class Tree:
-    __slots__ = ("svg_attrs", "children", "writer")
+    __slots__ = ("svg_attrs", "children", "writer", "shapes")
 
     def __init__(self, svg_attrs=None, writer="?"):
         self.svg_attrs = dict(svg_attrs or {})
         self.children = []
         self.writer = writer
+        self.shapes = False      # the document also holds circles/rects/... (not modelled, filtered on read)
 
     def clone(self):
         def cl(n):
@@ -163,6 +164,7 @@ class Tree:
             return g
         t = Tree(self.svg_attrs, self.writer)
         t.children = [cl(c) for c in self.children]
+        t.shapes = self.shapes
         return t
 
     def flat(self):
@@ -242,6 +244,11 @@ def clark_dict(d, nsmap=None):
 
 def nsmap_of(svg_attrs):
     return {k[6:]: v for k, v in (svg_attrs or {}).items() if k.startswith("xmlns:")}
+
+
+def is_path_elem(el):
+    t = getattr(el, "tag", "")
+    return isinstance(t, str) and (t == "path" or t.endswith("}path"))
 
 
 def style_keys(attrs):
@@ -408,6 +415,12 @@ def match(result, tree, reader, check_attrs=True, attr_filter=None):
 # the world
 # ----------------------------------------------------------------------------------------------
 
+SHAPES = ['<rect x="1" y="2" width="30" height="40" fill="none"/>', '<circle cx="5" cy="5" r="2" id="c1"/>',
+          '<ellipse cx="1" cy="2" rx="3" ry="4"/>', '<line x1="0" y1="0" x2="10" y2="5" stroke="red"/>',
+          '<polyline points="0,0 1,1 2,0" class="pl"/>', '<polygon points="0,0 4,4 8,0"/>',
+          '<rect x="0" y="0" width="5" height="5" rx="1" ry="1"/>']
+
+
 class ShortReadStream(io.RawIOBase):
     """A caller-supplied binary stream that returns fewer bytes than asked (legal for any stream)."""
 
@@ -543,15 +556,24 @@ class World:
     def _read_with(self, reader, name):
         fs = self.fs
         try:
+            def only_paths(p, a):
+                # the property speaks about paths: circles/rects/... that a file also holds (disvg's nodes=,
+                # shapes in a hand-made file) are returned by the readers as converted paths, by design;
+                # they are recognised by having no `d` attribute of their own and left out of the comparison
+                keep = [i for i, x in enumerate(a) if "d" in x]
+                return [p[i] for i in keep], [a[i] for i in keep]
             if reader == "svg2paths":
                 p, a = svg2paths(name)
+                p, a = only_paths(p, a)
                 return ("ok", (p, a, None))
             if reader == "svg2paths2":
                 p, a, s = svg2paths2(name)
+                p, a = only_paths(p, a)
                 return ("ok", (p, a, s))
             if reader == "svg2paths_textstream":
                 with open(name, "r", encoding=self.enc_of(name)) as f:
                     p, a, s = svg2paths(f, return_svg_attributes=True)
+                p, a = only_paths(p, a)
                 return ("ok", (p, a, s))
             if reader == "svg2paths_stream":
                 data = fs.content(fs.resolve(str(name)))
@@ -561,12 +583,14 @@ class World:
                 # stream may (a BufferedReader around it would hide that from a single big read())
                 st = ShortReadStream(data, self.config.get("short_step", 7))
                 p, a, s = svg2paths(st, return_svg_attributes=True)
+                p, a = only_paths(p, a)
                 return ("ok", (p, a, s))
             if reader == "svgstr2paths":
                 data = fs.content(fs.resolve(str(name)))
                 if data is None:
                     raise FileNotFoundError(name)
                 p, a, s = svgstr2paths(data.decode(self.enc_of(name)), return_svg_attributes=True)
+                p, a = only_paths(p, a)
                 return ("ok", (p, a, s))
             if reader in ("document", "document_stream", "document_string", "document_textstream"):
                 if reader == "document":
@@ -588,12 +612,13 @@ class World:
                     if data is None:
                         raise FileNotFoundError(name)
                     doc = Document.from_svg_string(data.decode(self.enc_of(name)))
-                ps = doc.paths()
+                ps = [q for q in doc.paths() if is_path_elem(q.element)]
                 return ("ok", (ps, [dict(q.element.attrib) for q in ps], dict(doc.root.attrib)))
             if reader == "sax":
                 sx = SaxDocument(name)
                 ps = sx.flatten_all_paths()
-                return ("ok", (ps, [dict(v) for v in sx.tree], dict(sx.root_values)))
+                keep = [i for i, v in enumerate(sx.tree) if v.get("name", "path") == "path"]
+                return ("ok", ([ps[i] for i in keep], [dict(sx.tree[i]) for i in keep], dict(sx.root_values)))
         except SimCrash:
             raise
         except HarnessError:
@@ -829,13 +854,19 @@ class World:
         if op.get("svg_attrs") is not None:
             kw["svg_attributes"] = dict(op["svg_attrs"])
         for k in ("colors", "stroke_widths", "dimensions", "viewbox", "mindim", "margin_size", "baseunit"):
+            if k in ("dimensions", "viewbox") and op.get("attrs") is None and "stroke_widths" not in op:
+                continue      # outside the statement's quantifier and a TypeError on the pinned tree (DESIGN 8.2)
             if k in op:
                 v = op[k]
                 if k in ("dimensions", "viewbox") and isinstance(v, list):
                     v = tuple(v)
                 kw[k] = v
-        if "nodes" in op:
+        if "nodes" in op and "dimensions" not in kw and "viewbox" not in kw:
+            # (nodes= together with dimensions=/viewbox= needs node_radii= on the pinned tree: same family
+            #  of option combinations outside the statement as in DESIGN 8.2)
             kw["nodes"] = [cz(z) for z in op["nodes"]]
+            tree.shapes = True
+            self.probe("nodes_drawn_as_circles")
         fname = op.get("file")
         ts = op.get("timestamp")
         if ts is not None:
@@ -916,7 +947,7 @@ class World:
             self.violate(idx, "read_failed", {"file": name, "status": oc[0]}, fm.alts[-1].writer,
                          fm.alts[-1].shape(), "document", fault)
             return oc[0]
-        ps = oc[1]
+        ps = [q for q in oc[1] if is_path_elem(q.element)]
         res = (ps, [dict(q.element.attrib) for q in ps], dict(doc.root.attrib))
         chosen = None
         for tree in fm.alts:
@@ -1069,6 +1100,7 @@ class World:
             self.violate(idx, "read_failed", {"status": st, "op": "Document.paths()"}, "document", dm.tree.shape(),
                          "document-live")
             return
+        ps = [q for q in ps if is_path_elem(q.element)]
         res = (ps, [dict(q.element.attrib) for q in ps], dict(dm.obj.root.attrib))
         m = match(res, dm.tree, "document-live")
         self.bump(self.counters, "document_live_query_checked")
@@ -1107,6 +1139,7 @@ class World:
         if not recursive:
             sub.children = [c for c in sub.children if isinstance(c, PNode)]
             self.probe("paths_from_group_not_recursive")
+        ps = [q for q in ps if is_path_elem(q.element)]
         res = (ps, [dict(q.element.attrib) for q in ps], None)
         m = match(res, sub, "document-live-group")
         if m is not None:
@@ -1126,7 +1159,8 @@ class World:
         tree = dm.tree.clone()
         tree.writer = "document:" + dm.origin.split(":")[0]
         pre = fs.gens()
-        status, val, fired = self.run(op, lambda: dm.obj.save(fn_arg(op, op["file"]), prettify=bool(op.get("prettify"))))
+        kw = dict(op.get("pretty_kw") or {}) if op.get("prettify") else {}
+        status, val, fired = self.run(op, lambda: dm.obj.save(fn_arg(op, op["file"]), prettify=bool(op.get("prettify")), **kw))
         self.after_write(idx, op, status, fired, pre, tree, target, tree.writer)
         if status == "ok" and op["doc"] in self.docs:
             dm.dirty = False
@@ -1162,6 +1196,8 @@ class World:
         if fm.status != "complete":
             return "skipped"
         base = fm.alts[0]
+        if base.shapes:
+            return "skipped"      # SaxDocument.save turns every shape into a path element: not modelled
         tree = Tree({k: v for k, v in base.svg_attrs.items() if k in ("width", "height", "viewBox")}, "sax")
         for e, key in base.flat():
             keep = None
@@ -1213,12 +1249,20 @@ class World:
             if op.get("comment"):
                 lines.append("%s<!-- after p%d -->" % (indent, spec["pid"]))
         for item in op["items"]:
-            if "group" in item:
+            if "shape" in item:
+                lines.append("  " + SHAPES[item["shape"] % len(SHAPES)])
+                tree.shapes = True
+                self.probe("foreign_file_with_other_shapes")
+            elif "group" in item:
                 g = GNode(item["group"], {"id": item["group"]})
                 tree.children.append(g)
                 lines.append('  <g id=%s>' % quoteattr(item["group"]))
                 for spec in item["paths"]:
-                    emit(spec, "    ", g)
+                    if "shape" in spec:
+                        lines.append("    " + SHAPES[spec["shape"] % len(SHAPES)])
+                        tree.shapes = True
+                    else:
+                        emit(spec, "    ", g)
                 lines.append("  </g>")
             else:
                 emit(item, "  ", tree)
@@ -1272,6 +1316,15 @@ class World:
         if fired:
             self.bump(self.counters, "read_under_fault_returned")
         self.judge_read(idx, name, fm, rd, oc, fm.alts[-1].writer, fault)
+        return "ok"
+
+    def op_chdir(self, idx, op, entry):
+        """the process changes its working directory: relative names now mean other files"""
+        d = self.fs.resolve(op["dir"])
+        if d not in self.fs.dirs:
+            return "skipped"
+        self.fs.cwd = d
+        self.probe("working_directory_changed")
         return "ok"
 
     def op_restart(self, idx, op, entry):
@@ -1333,7 +1386,7 @@ def replay(hist, keep_log=False):
 # ----------------------------------------------------------------------------------------------
 
 FILE_POOL = ["a.svg", "b.svg", "out/c.svg", "out/deep/er/d.svg", ROOT + "/tmp/e.svg", "pic.SVG", "noext",
-             "sub dir/f g.svg", "out/c.xml"]
+             "sub dir/f g.svg", "out/c.xml", "50%#1.svg", "\u00fcn\u00ef/\u00e7 \u2603.svg", "./out/../h.svg"]
 GROUP_POOL = [["g1"], ["g1", "g2"], ["g3"], ["g1", "g4"], ["g3", "g5", "g6"], ["g10"], ["g1", "g22"], ["g"]]
 VAL_SIMPLE = ["red", "#00ff00", "none", "1.5", "blue", "0.25", "a b", "x1", "007", "1e3", "1.50", "TRUE"]
 VAL_NASTY = ["x&y", "<tag>", 'say "hi"', "it's", "ünïcödé ☃", "a  b", " lead", "trail ", "&amp;",
@@ -1365,7 +1418,7 @@ class Gen:
             "doc_display": c.choice([0, 0, 1]), "doc_paths": c.choice([0, 1]),
             "doc_paths_from_group": c.choice([0, 1]), "sax_resave": c.choice([0, 0, 1]),
             "doc_set_root_attr": c.choice([0, 1]), "foreign_file": c.choice([0, 0, 1, 2]),
-            "read": c.choice([0, 1, 2]), "restart": c.choice([0, 0, 1]),
+            "read": c.choice([0, 1, 2]), "restart": c.choice([0, 0, 1]), "chdir": c.choice([0, 0, 0, 1]),
         }
         if self.w_ops["wsvg"] + self.w_ops["disvg"] + self.w_ops["doc_new"] == 0:
             self.w_ops["wsvg"] = 2
@@ -1621,6 +1674,8 @@ class Gen:
             sa = self.svg_attrs(a)
             if sa is not None:
                 op["svg_attrs"] = sa
+            if a.random() < 0.08:
+                op["nodes"] = [self.pt(a) for _ in range(a.choice([1, 2, 3]))]   # drawn as circles
             # (dimensions= / viewbox= are not generated: they lie outside C18's quantifier, and on the
             #  pinned tree disvg(paths, dimensions=...) without stroke_widths raises TypeError)
             if a.random() < 0.15:
@@ -1658,6 +1713,14 @@ class Gen:
                     sp = self.pathspec(a)
                     sp["attrs"] = self.attrs(a, sp["pid"])
                     items.append(sp)
+                if a.random() < 0.3:
+                    items.append({"shape": a.randrange(7)})
+            for it in items:
+                if "group" in it and a.random() < 0.3:
+                    it["paths"].insert(a.randrange(len(it["paths"]) + 1), {"shape": a.randrange(7)})
+            for it in items:          # hand-made files: plain Path objects only
+                for sp in ([it] if "segs" in it else it.get("paths", [])):
+                    sp.pop("reuse", None); sp.pop("edit", None); sp.pop("np", None)
             enc = a.choice(["utf-8", "utf-8", "utf-8", "iso-8859-1", "us-ascii"])
             op = {"op": k, "file": a.choice(self.files), "items": items, "encoding": enc,
                   "decl": a.random() < 0.8 or enc != "utf-8"}
@@ -1699,6 +1762,8 @@ class Gen:
                 return {"op": k, "file": a.choice(fs), "reader": a.choice(READERS)}
             if k == "restart":
                 return {"op": k}
+            if k == "chdir":
+                return {"op": k, "dir": a.choice([ROOT + "/cwd", ROOT + "/cwd/out", ROOT + "/tmp", ROOT + "/cwd/sub dir"])}
             return None
         if not w.docs:
             return None
@@ -1742,7 +1807,10 @@ class Gen:
                 key, a.choice(VAL_NASTY if self.attr_mode == "nasty" else VAL_SIMPLE))
             return {"op": k, "doc": d, "key": key, "value": val}
         if k == "doc_save":
-            return {"op": k, "doc": d, "file": a.choice(self.files), "prettify": a.random() < 0.4}
+            op = {"op": k, "doc": d, "file": a.choice(self.files), "prettify": a.random() < 0.4}
+            if op["prettify"] and a.random() < 0.3:
+                op["pretty_kw"] = a.choice([{"indent": "  "}, {"indent": "", "newl": ""}, {"newl": "\r\n"}])
+            return op
         if k == "doc_display":
             return {"op": k, "doc": d, "file": a.choice([None, None] + self.files)}
         if k == "doc_paths":
